@@ -42,7 +42,9 @@ inline void svprintscripts(std::vector<std::string>& l, int& lmax, std::vector<C
         std::string header = "<<< taproot commitment >>>";
         if (header.length() > lmax) lmax = header.length();
         l.push_back(header);
-        for (const auto& s : desc) {
+        // like executed script operations, the path nodes already hashed are no longer listed
+        for (size_t j = tce->m_i; j < desc.size(); ++j) {
+            const auto& s = desc[j];
             if (s.length() > lmax) lmax = s.length();
             l.push_back(s);
         }
